@@ -1156,12 +1156,27 @@ func genRandomString() (string, error) {
 // We need to ensure that all login destinations are relative paths
 // Thus the path MUST start with a / but MUST NOT start with a //, because
 // // is interpreted as: use whatever protocol you think is OK
+// isSafeLoginDestination reports whether dest stays on this origin as a browser
+// resolves it: a single leading slash followed by neither a slash nor a
+// backslash, and no control characters anywhere.
+func isSafeLoginDestination(dest string) bool {
+	if !strings.HasPrefix(dest, "/") || strings.HasPrefix(dest, "//") ||
+		strings.HasPrefix(dest, "/\\") {
+		return false
+	}
+	for i := 0; i < len(dest); i++ {
+		if dest[i] < 0x20 || dest[i] == 0x7f {
+			return false
+		}
+	}
+	return true
+}
+
 func getLoginDestination(r *http.Request) string {
 	loginDestination := profilePath
 	if r.FormValue("login_destination") != "" {
 		inboundLoginDestination := r.Form.Get("login_destination")
-		if strings.HasPrefix(inboundLoginDestination, "/") &&
-			!strings.HasPrefix(inboundLoginDestination, "//") {
+		if isSafeLoginDestination(inboundLoginDestination) {
 			loginDestination = inboundLoginDestination
 		}
 	}
